@@ -23,9 +23,10 @@ def strategy(tier):
 
     @st.composite
     def cases(draw):
-        spec = draw(gen.charts(max_states=16 if big else 12, mix=MIX, p_sends=0.15, p_aguard=0.15))
+        spec = draw(gen.charts(max_states=16 if big else 12, mix=MIX, p_sends=0.15, send_delays=True,
+                               p_aguard=0.15))
         ops = draw(gen.histories(spec, 8, 25, advances=True, delays=True))
-        return {'spec': spec, 'ops': ops}
+        return {'spec': spec, 'ops': ops, 'faults': draw(gen.faults(ops))}
     return cases()
 
 
